@@ -209,7 +209,7 @@ def weave_function(fn, path, src, edits, counter, census, loops=None):
             if ex.get('_file') == path and 'offset' in ex:
                 m = re.match(r'[A-Za-z_0-9]+', src[ex['offset']:ex['offset'] + 64])
                 mac = m.group(0) if m else '?'
-                if not re.match(r'^(atomic_|__atomic|__sync|fiber_likely|fiber_unlikely|assert)', mac):
+                if not re.match(r'^(atomic_|__atomic|__sync|fiber_likely|fiber_unlikely|assert|errno$)', mac):
                     raise WeaveError('%s: shared access inside the body of macro %s — not woven' % (name, mac))
             return
         n = counter[0]
@@ -257,7 +257,18 @@ def weave_function(fn, path, src, edits, counter, census, loops=None):
             if not (isfn and NOSYNC.match(cname or '')):
                 r = rng(n)
                 if r is None:
-                    raise WeaveError('%s: call of %s inside a macro body — not woven' % (name, cname))
+                    ex = n['range']['begin'].get('expansionLoc', {})
+                    mac = ''
+                    if ex.get('_file') == path and 'offset' in ex:
+                        mm = re.match(r'[A-Za-z_0-9]+', src[ex['offset']:ex['offset'] + 64])
+                        mac = mm.group(0) if mm else ''
+                    if mac == 'errno':   # thread-local errno: (*__errno_location()) — not shared memory
+                        for c in inner:
+                            if isinstance(c, dict):
+                                c['_parent'] = k
+                            rec(c, depth + 1)
+                        return
+                    raise WeaveError('%s: call of %s inside the body of macro %s — not woven' % (name, cname, mac))
                 s = counter[0]
                 counter[0] += 1
                 stats['calls'] += 1
@@ -331,7 +342,9 @@ def weave_function(fn, path, src, edits, counter, census, loops=None):
     stats['loops'] = loopno[0]
     for o in (loops or {}):
         if int(o) >= loopno[0]:
-            raise WeaveError('%s: loop contract for loop %s but the function has %d loops' % (name, o, loopno[0]))
+            # the code has fewer loops than the spec has loop contracts (e.g. a retry loop was turned into an `if`): there is
+            # nothing to attach the contract to; the function is then verified as it stands (any other loop must have its own)
+            stats.setdefault('unused_loop_contracts', []).append(int(o))
     if is_void:
         s = counter[0]
         counter[0] += 1
